@@ -98,6 +98,7 @@ type Interp struct {
 	loopWritten map[*ssa.BasicBlock]map[string]bool
 	loopChanged bool
 	curLoops    []*ssa.BasicBlock
+	headerObjs  map[*ssa.BasicBlock]int // number of objects existing when the loop was entered
 	// UnrollLoops lets functions with loops be interpreted along their single
 	// feasible path, provided every branch inside is decided (counted loops with
 	// constant bounds); an undecided branch makes the run imprecise.
@@ -344,8 +345,21 @@ func topoOrderCut(fn *ssa.Function) (order []*ssa.BasicBlock, loops map[*ssa.Bas
 func (ip *Interp) CallFix(fn *ssa.Function, mkArgs func() ([]Val, *State)) (Val, *State) {
 	ip.LoopHavoc = true
 	ip.loopWritten = map[*ssa.BasicBlock]map[string]bool{}
+	ip.headerObjs = map[*ssa.BasicBlock]int{}
+	baseObjs := len(ip.objs)
+	baseSyms := map[string]*Obj{}
+	for k, v := range ip.symObjs {
+		baseSyms[k] = v
+	}
 	for i := 0; i < 8; i++ {
 		ip.Reset()
+		// identical allocation numbering in every iteration, so that cell keys are comparable
+		ip.objs = ip.objs[:baseObjs]
+		ip.symObjs = map[string]*Obj{}
+		for k, v := range baseSyms {
+			ip.symObjs[k] = v
+		}
+		ip.fresh = 0
 		ip.loopChanged = false
 		args, st := mkArgs()
 		res, out := ip.Call(fn, args, nil, st)
@@ -484,6 +498,9 @@ func (ip *Interp) Call(fn *ssa.Function, args []Val, bind []Val, st *State) (res
 			// loop header: forget loop-carried values and cells written in the loop
 			if cur == in[0].st {
 				cur = cur.fork()
+			}
+			if ip.headerObjs != nil {
+				ip.headerObjs[b] = len(ip.objs)
 			}
 			for _, instr := range b.Instrs {
 				phi, ok := instr.(*ssa.Phi)
